@@ -312,7 +312,8 @@ def run_shape(E, spec, R, rng):
         cats = list(case['cats'])
         k = rng.randrange(n)
         m = len(doc[k])
-        mode = rng.choice(('tag-width', 'tag-rows', 'dep-shape', 'dep-square', 'doc-vs-scores', 'single-scores', 'dup-cats', 'cat-list-short'))
+        mode = rng.choice(('tag-width', 'tag-rows', 'dep-shape', 'dep-square', 'doc-vs-scores', 'single-scores', 'dup-cats', 'cat-list-short',
+                           'both-for-other-length', 'both-for-other-length'))
         if mode == 'tag-width':
             scores[k] = ScoringResult(np.zeros((m, T + 1), dtype=np.float32), scores[k].dep_scores)
         elif mode == 'tag-rows':
@@ -321,6 +322,9 @@ def run_shape(E, spec, R, rng):
             scores[k] = ScoringResult(scores[k].tag_scores, np.zeros((m, m + 2), dtype=np.float32))
         elif mode == 'dep-square':
             scores[k] = ScoringResult(scores[k].tag_scores, np.zeros((m, m), dtype=np.float32))
+        elif mode == 'both-for-other-length':
+            d = rng.choice((-1, 1, 2)) if m > 1 else rng.choice((1, 2))
+            scores[k] = ScoringResult(np.zeros((m + d, T), dtype=np.float32), np.zeros((m + d, m + d + 1), dtype=np.float32))
         elif mode == 'doc-vs-scores':
             scores = scores[:-1]
         elif mode == 'single-scores':
